@@ -1,5 +1,6 @@
 import Utv.Model.Rule
 import Utv.Model.C02Decl
+import Utv.Model.C03Copy
 import Utv.Util.PyJson
 open Lean Utv Utv.J Utv.Py Utv.PyJson Utv.Rule Utv.C02D
 
@@ -115,6 +116,66 @@ def handleDecl (P : Prims) (j : Json) : Json :=
   | .error (.unmodelled w) => Json.mkObj [("validators", vJ), ("unmodelled", Json.str w)]
   | _ => Json.mkObj [("validators", vJ), ("parse", encodeOutcome r), ("isinstance", Json.bool inst)]
 
+/-! ### op "copy" (C03): the reference `copy_value` (proved to satisfy the equation generated from the source) -/
+
+instance : Inhabited Utv.C03C.CVal := ⟨.atom 0⟩
+
+open Utv.C03C in
+partial def decodeC (j : Json) : StateM (Array Json) CVal := do
+  let seqOf (k : CCls) (x : Json) : StateM (Array Json) CVal := do
+    let xs ← (arr! x).mapM decodeC
+    pure (.seq k xs)
+  match obj? j "l" with
+  | some x => seqOf .list x
+  | none =>
+  match obj? j "t" with
+  | some x => seqOf .tuple x
+  | none =>
+  match obj? j "S" with
+  | some x => seqOf .set x
+  | none =>
+  match obj? j "F" with
+  | some x => seqOf .frozenset x
+  | none =>
+  match obj? j "V" with
+  | some x => seqOf .dictValues x
+  | none =>
+  match obj? j "K" with
+  | some x => seqOf .dictKeys x
+  | none =>
+  match obj? j "m" with
+  | some x => do
+    let pairs := (arr! x).map fun p => match arr! p with | [k, v] => (k, v) | _ => (Json.null, Json.null)
+    let ks ← pairs.mapM (fun p => decodeC p.1)
+    let vs ← pairs.mapM (fun p => decodeC p.2)
+    pure (.dict ks vs)
+  | none => do
+    let tbl ← get
+    match tbl.findIdx? (· == j) with
+    | some i => pure (.atom i)
+    | none =>
+      set (tbl.push j)
+      pure (.atom tbl.size)
+
+open Utv.C03C in
+partial def encodeC (tbl : Array Json) : CVal → Json
+  | .atom n => tbl[n]?.getD Json.null
+  | .seq k xs =>
+    let tag := match k with
+      | .list => "l" | .tuple => "t" | .set => "S" | .frozenset => "F" | .dictValues => "V" | .dictKeys => "K" | _ => "l"
+    Json.mkObj [(tag, Json.arr (xs.map (encodeC tbl)).toArray)]
+  | .dict ks vs =>
+    Json.mkObj [("m", Json.arr ((List.zip ks vs).map fun (k, v) => Json.arr #[encodeC tbl k, encodeC tbl v]).toArray)]
+
+open Utv.C03C in
+def handleCopy (j : Json) : Json :=
+  let (v, tbl) := (decodeC (fld j "value")).run #[]
+  let W : World := { pyEq := fun a b => a == b }
+  match copyRef W v with
+  | .ok r => Json.mkObj [("ok", encodeC tbl r)]
+  | .error .typeError => Json.mkObj [("err", Json.str "TypeError")]
+  | .error (.unmodelled w) => Json.mkObj [("unmodelled", Json.str w)]
+
 def handle (j : Json) : Json :=
   let P := decodePrims (fld j "prims")
   match str! (fld j "op") with
@@ -127,6 +188,7 @@ def handle (j : Json) : Json :=
       | [n, b] => (str! n, decode b) | _ => ("", PyVal.none)
     encodeOutcome (validate P (ordered (normalise cs)) (decode (fld j "value")))
   | "decl" => handleDecl P j
+  | "copy" => handleCopy j
   | "skip" => Json.mkObj [("unmodelled", Json.str "skip")]
   | "cmp" =>
     let a := decode (fld j "a"); let b := decode (fld j "b")
